@@ -1870,9 +1870,9 @@ impl Scenario for E1 {
             (Kind::C12, Tier::Quick) => (50_000, 50),
             (Kind::C17, Tier::Quick) => (500_000, 50),
             (_, Tier::Quick) => (100_000, 60),
-            (Kind::C12, Tier::Thorough) => (5_000_000, 3000),
-            (Kind::C17, Tier::Thorough) => (40_000_000, 3000),
-            (_, Tier::Thorough) => (10_000_000, 3000),
+            (Kind::C12, Tier::Thorough) => (5_000_000, 1200),
+            (Kind::C17, Tier::Thorough) => (40_000_000, 1200),
+            (_, Tier::Thorough) => (10_000_000, 1200),
         }
     }
 
